@@ -14,6 +14,7 @@ RULES_OF = {
     "C03": None,   # every rule, backend jax
     "C04": {"unpack-slot", "store-slot", "store-twice", "lengths-stored", "lengths-returned", "store-before-alloc"},
     "C05": {"store-slot", "store-twice", "lengths-stored"},
+    "C07": {"scheme-choice", "store-slot"},
     "C12": {"use-before-def", "unpack-slot", "store-slot", "lengths-stored", "lengths-returned", "topological", "complete"},
     "C13": {"unpack-slot", "store-slot", "use-before-def", "lengths-stored", "lengths-returned"},
     "C19": {"redefinition"},
